@@ -1,9 +1,11 @@
 from ..framework import Spec
 from ..ties_bits import parts_tie
-from ..ties_sys import isa_tie, sys_tie, macro_scenario_tie
+from ..ties_sys import isa_tie, sys_tie, macro_scenario_tie, constraint_scenario_tie
 
 SPEC = Spec(
     pid='C01',
     coq_needs=['Base', 'Bits', 'BitsSpec', 'BitsProofs', 'Match', 'MatchProofs', 'ProgramIsa', 'Properties/C01'],
-    ties=[parts_tie(), isa_tie({'p_macros': 0.15}, n_quick=350), sys_tie('C12', n_quick=120, name='sys_instr'), macro_scenario_tie()],
+    ties=[parts_tie(), isa_tie({'p_macros': 0.15}, n_quick=350), sys_tie('C12', n_quick=120, name='sys_instr'), macro_scenario_tie(),
+          # sliced addresses next to page boundaries, narrow slices, fields that are not byte multiples
+          constraint_scenario_tie(100, 2000)],
 )
